@@ -5,6 +5,7 @@ extern "C" void harness() {
   static Pool pool, pool2; pool.depth_ = nondet_bool() ? 0 : 1;
   static Edge e, other; static Node in0; static Edge prod;
   e.pool_ = &pool; other.pool_ = &pool2;
+  e.vf_phony = nondet_bool();                                  /* phony statements can be bound to a pool too: they are scheduled like any other edge */
   prod.outputs_.push_back(&in0); in0.in_edge_ = &prod; prod.outputs_ready_ = nondet_bool();
   e.inputs_.push_back(&in0);
   int w = nondet_int(); __CPROVER_assume(w == (int)Plan::kWantToStart || w == (int)Plan::kWantToFinish);   /* pre (assert in the code): not kWantNothing */
